@@ -20,7 +20,7 @@ const PREPARED: &[&str] = &[
 ];
 
 const MODEL: &str = include_str!("../../data/c13_model.dmn");
-const INVOCABLES: &[&str] = &["boxed", "table", "top", "inc"];
+const INVOCABLES: &[&str] = &["boxed", "table", "top", "inc", "lim", "fallback"];
 const INPUTS: &[&str] = &[r#"{n: 2, s: "a", v: 5}"#, r#"{n: 0, s: "z", v: 1}"#, r#"{n: null, s: "b"}"#];
 
 fn mk_scope(text_bottom: &str, text_top: &str) -> Scope {
@@ -79,6 +79,17 @@ pub fn check(mut ctx: Ctx, _replay: Option<J>) -> ! {
     tool_error("too few histories");
   }
   recs.push(json!({"ev": "init", "scopes": scopes.iter().map(|s| s.to_string()).collect::<Vec<_>>()}));
+  // every (expression, scope) evaluated alone: parsed and prepared afresh, on a fresh copy of the scope
+  let fresh_scopes = || [mk_scope("{base: 10}", "{x: 1, xs: [1, 2, 3]}"), mk_scope("{base: 20, item: 7}", "{x: 2, xs: [2, 0]}")];
+  for (e, t) in PREPARED.iter().enumerate() {
+    for s in 0..scopes.len() {
+      let fs = fresh_scopes();
+      let node = dmntk_feel_parser::parse_expression(&fs[0], t, false).unwrap_or_else(|e| tool_error(&format!("cannot parse {}: {}", t, e)));
+      let ev = dmntk_feel_evaluator::prepare(&node).unwrap_or_else(|e| tool_error(&format!("{}", e)));
+      let (v, _) = with_events(|| ev(&fs[s]));
+      recs.push(json!({"ev": "ref", "e": e + 1, "s": s + 1, "res": v.to_string()}));
+    }
+  }
   let mut evals = 0u64;
   for h in &histories {
     for step in h.as_array().cloned().unwrap_or_default() {
@@ -101,6 +112,15 @@ pub fn check(mut ctx: Ctx, _replay: Option<J>) -> ! {
   }
   let mh = genm.tagged("HISTORY");
   recs.push(json!({"ev": "init", "scopes": inputs.iter().map(|c| c.to_string()).collect::<Vec<_>>()}));
+  // every (invocable, input) evaluated alone, by a model evaluator built for this one call
+  for e in 0..INVOCABLES.len() {
+    for s in 0..INPUTS.len() {
+      let fresh = dmntk_model_evaluator::ModelEvaluator::new(&defs).unwrap_or_else(|e| tool_error(&format!("model evaluator: {}", e)));
+      let input = dmntk_feel_evaluator::evaluate_context(&Scope::default(), INPUTS[s]).unwrap_or_else(|e| tool_error(&format!("{}", e)));
+      let (v, _) = with_events(|| fresh.evaluate_invocable(INVOCABLES[e], &input));
+      recs.push(json!({"ev": "ref", "e": e + 101, "s": s + 101, "res": v.to_string()}));
+    }
+  }
   for h in &mh {
     for step in h.as_array().cloned().unwrap_or_default() {
       let (e, s) = (step[0].as_u64().unwrap() as usize, step[1].as_u64().unwrap() as usize);
@@ -174,7 +194,7 @@ pub fn check(mut ctx: Ctx, _replay: Option<J>) -> ! {
   ctx.cov("traces_validated_against_impl", json!(histories.len() + mh.len()));
   ctx.cov("events_validated", json!(recs.len()));
   ctx.cov("exhaustive", json!(true));
-  ctx.cov("rule", json!("every history (order, repetition, interleaving) up to the length bound of 6 prepared expressions x 2 two-level scopes and of 4 invocables x 3 input contexts of a shared model evaluator; plus every expression of the C01 fragment evaluated twice; after every step the rendering of every caller scope, the result and the H3 push/pop counts are validated by Trace_C13"));
+  ctx.cov("rule", json!("every history (order, repetition, interleaving) up to the length bound of 6 prepared expressions x 2 two-level scopes and of 6 invocables x 3 input contexts of a shared model evaluator (a decision table with an input-dependent default entry and a parameterless knowledge model with a boxed context among them), every result compared with that of the same call made alone on a freshly built evaluator; plus every expression of the C01 fragment evaluated twice; after every step the rendering of every caller scope, the result and the H3 push/pop counts are validated by Trace_C13"));
   ctx.sample(json!({"history": histories[histories.len() / 2], "prepared": PREPARED}));
   ctx.assume("the textual rendering of a scope shows every context and entry it holds");
   ctx.finish()
